@@ -197,7 +197,8 @@ macro_rules! int_type {
             // boundary set: every 10^k and 2^k with +-3 neighbours, both signs, type extremes +-3
             let mut local = [0u64; 96];
             let mut vals: Vec<i128> = Vec::new();
-            for k in 0..39u32 {
+            let kstep = $a.num("kstep", 1).max(1) as usize;
+            for k in (0..39u32).step_by(kstep) {
                 let p = 10i128.checked_pow(k);
                 if let Some(p) = p {
                     for d in -3i128..=3 {
@@ -206,7 +207,7 @@ macro_rules! int_type {
                     }
                 }
             }
-            for k in 0..127u32 {
+            for k in (0..127u32).step_by(kstep) {
                 let p = 1i128 << k;
                 for d in -3i128..=3 {
                     vals.push(p + d);
@@ -511,7 +512,7 @@ pub fn engine_tls(a: &Args) {
     }
     // floats
     let mut specials32: Vec<u32> = vec![0, 0x8000_0000, 0x7F80_0000, 0xFF80_0000, 0x7FC0_0000, 0xFFC0_0001, 0x7F80_0001, 1, 0x007F_FFFF, 0x0080_0000, 0x7F7F_FFFF];
-    for e in 0..256u32 {
+    for e in (0..256u32).step_by(if miri { 37 } else { 1 }) {
         for m in [0u32, 1, 0x7F_FFFF, 0x40_0000, 0x2A_AAAA] {
             specials32.push(e << 23 | m);
             specials32.push(1 << 31 | e << 23 | m);
